@@ -364,14 +364,14 @@ def main(ctx):
     if regen_ok:
         ctx.obligation("tie:C05_NumSites+C05_Shapes regenerated", "tie", True, "; ".join(ctx.stats.get("extract", [])))
     names = ctx.audit("GojaModel.C05.Props", expect_min=40)
-    tie_errs = [e for e in errs if "Tie" in e["file"] or "Generated" in e["file"]]
+    tie_errs = [e for e in errs if os.path.basename(e["file"]) == "Tie.lean" or "Generated" in e["file"]]
     for t in ("numSites_ok", "wrappers_ok", "maxInt_tie"):
         # Tie theorems are `by decide` over regenerated data: checked by the lake build above (a failure is already a broken obligation)
         ctx.obligation("tie:GojaModel.C05.Tie." + t, "tie", ok or not tie_errs, "lake build of GojaModel.C05.Tie")
     if ctx.tier == "thorough" and ok:
         ctx.leanchecker("GojaModel.C05.Props")
     model = ctx.model_exe()
-    have_model = os.path.exists(model) and regen_ok and not any("Driver" in e["file"] or "Model" in e["file"] or "Generated" in e["file"] for e in errs)
+    have_model = os.path.exists(model) and regen_ok and not any(os.path.basename(e["file"]) in ("Driver.lean", "Model.lean", "Num.lean", "F64.lean", "C05_Shapes.lean", "C05.lean") for e in errs)
     if have_model:
         rc, out, _ = ctx.run_lines([model], ["shapes"])
         ctx.stats["shapes"] = out[0] if out else "?"
@@ -438,6 +438,9 @@ def main(ctx):
     idvals = rng.sample(canon_set, min(len(canon_set), 400 if quick else 3000)) + \
         ["i0", "f8000000000000000", "f7ff8000000000001", "f7ff0000000000000", "fff0000000000000", "i1", "i-1", "i%d" % P53, "i%d" % -P53]
     pairs = [(v, v) for v in idvals]
+    special = ["i0", "f8000000000000000", "f7ff8000000000001", "f7ff0000000000000", "fff0000000000000", "i1", "i-1", "i%d" % P53, "i%d" % -P53,
+               "f3ff8000000000000", "f0000000000000001", "f4340000000000001", "fc340000000000001"]
+    pairs += [(x, y) for x in special for y in special]
     for _ in range(len(idvals) * 3):
         pairs.append((rng.choice(idvals), rng.choice(idvals)))
     noncanon = [ftok(f2b(float(i))) for i in (0, 1, -1, 6, P53, -P53, 255)] + ["f7ff8000000000000", "ffff8000000000001", "f7ff0000000000001", "f0000000000000000"]
@@ -747,7 +750,7 @@ def classify_str(line, out, exp):
     s = json.loads('"' + m.group(1) + '"') if m else ""
     t = s.strip(JS_WS)
     xb = b2f(py_string_to_number_bits(s))
-    if "charCodeAt" in line and exp == "i97" and out == "f7ff8000000000001" and re.match(r"[+-]?\d{19,}", t) and xb != xb:
+    if "charCodeAt" in line and exp == "i97" and out == "f7ff8000000000001" and re.match(r"[+-]?(\d{19,}|0[xX][0-9a-fA-F]{16,}|0[oO][0-7]{21,}|0[bB][01]{63,})", t) and xb != xb:
         return "string-ToInteger-invalid-text-with-overflowing-digit-prefix"
     if not s.isascii() and re.match(r"js (Math\.abs\(|-\(-|'abc)", line) and out in ("f7ff8000000000001", "i97"):
         return "unicode-string-ToFloat-ToInteger-ignore-content"
